@@ -158,7 +158,7 @@ func (c Case) hasFiles() bool { return len(c.Files) > 0 }
 // streaming reports whether the body reaches the request as a stream rather than as the runtime's buffer.
 func (c Case) streaming() bool {
 	switch c.Kind {
-	case "reader", "readcloser", "buffer", "bytesreader", "seekreader", "seekreadcloser":
+	case "reader", "readcloser", "buffer", "bytesreader", "osfile", "seekreader", "seekreadcloser":
 		return true
 	case "form":
 		return c.hasFiles() || c.MediaType == mtMultipart
@@ -211,7 +211,7 @@ func Check(c Case) *kit.Violation {
 	if c.Kind == "value" && c.Value != nil {
 		value = c.Value.Build()
 	}
-	if (c.Kind == "reader" || c.Kind == "readcloser" || c.Kind == "buffer" || c.Kind == "bytesreader" || c.Kind == "seekreader" || c.Kind == "seekreadcloser") && c.Body != nil {
+	if (c.Kind == "reader" || c.Kind == "readcloser" || c.Kind == "buffer" || c.Kind == "bytesreader" || c.Kind == "osfile" || c.Kind == "seekreader" || c.Kind == "seekreadcloser") && c.Body != nil {
 		full := c.Body.Data.Bytes()
 		skip := c.Body.Skip
 		if skip > len(full) {
@@ -227,6 +227,14 @@ func Check(c Case) *kit.Violation {
 	}
 	var wantFiles []wantFile
 	tmpDir := ""
+	// a payload that is a real *os.File of which the caller has read the beginning already (r10)
+	var bodyFile *os.File
+	defer func() {
+		if bodyFile != nil {
+			_ = bodyFile.Close()
+			_ = os.Remove(bodyFile.Name())
+		}
+	}()
 	fileParams := make([][]runtime.NamedReadCloser, len(c.Files))
 	for i, ff := range c.Files {
 		for _, f := range ff.Files {
@@ -346,6 +354,19 @@ func Check(c Case) *kit.Violation {
 			buf := bytes.NewBuffer(append([]byte(nil), bodyStream.data...))
 			buf.Next(len(bodyStream.data) - len(blob))
 			return req.SetBodyParam(buf)
+		case "osfile":
+			f, err := os.CreateTemp("", "c11body")
+			if err != nil {
+				return err
+			}
+			bodyFile = f
+			if _, err := f.Write(bodyStream.data); err != nil {
+				return err
+			}
+			if _, err := f.Seek(int64(len(bodyStream.data)-len(blob)), io.SeekStart); err != nil {
+				return err
+			}
+			return req.SetBodyParam(f)
 		case "bytesreader":
 			rd := bytes.NewReader(bodyStream.data)
 			_, _ = rd.Seek(int64(len(bodyStream.data)-len(blob)), io.SeekStart)
@@ -478,7 +499,7 @@ func Check(c Case) *kit.Violation {
 		if rawCT != "" && mt != c.MediaType {
 			return kit.Failf("NIL-PAYLOAD: Content-Type %q with no payload (chosen %q)", rawCT, c.MediaType)
 		}
-	case "reader", "readcloser", "buffer", "bytesreader", "seekreader", "seekreadcloser":
+	case "reader", "readcloser", "buffer", "bytesreader", "osfile", "seekreader", "seekreadcloser":
 		if !bytes.Equal(sent, blob) {
 			return kit.Failf("READER-PAYLOAD kind=%s script=%+v auth=%d: sent %d bytes %s, payload has %d bytes %s", c.Kind, c.Body.Script, c.Auth, len(sent), clipB(sent), len(blob), clipB(blob))
 		}
